@@ -1,122 +1,1896 @@
-//! probe (temporary)
-use redb::{Builder, Database, Durability, ReadableDatabase, ReadableTable, TableDefinition};
+//! C01 harness: commits are atomic and durable across crashes.
+//!
+//! usage: c01 <n_histories> <images_per_history> [only=<history index>]
+//!
+//! For every generated history (transactions against the REAL crate on a recording backend) it
+//!  (a) S3 crash oracle: builds adversarial crash images of the recorded operation stream (drops,
+//!      prefixes, byte tears of the header write, set_len applied or not), opens them with the real
+//!      crate and requires: open succeeds, contents == exactly one commit point between the last
+//!      acknowledged durable one and the last requested one, check_integrity does not fail.  Then the
+//!      recovery run is crashed the same way (depth 2, 3 thorough) and the recovered database is
+//!      driven further and crashed again.
+//!  (b) S2 material: writes the operation stream cut into sync windows, each with the summary of its
+//!      durable image (header, length, served slot and page ranges from redb's own walker, checksum
+//!      bits from redb's XXH3) for the extracted Coq validator `window_okb`, and for sampled crash
+//!      images the inputs/outputs of open for the differential test of the Coq `recover`.
+//!
+//! files written to the cwd: windows.txt, recover_cases.txt, recover_impl.txt, violations.json, stats.json
+use redb::{
+    Builder, Database, Durability, MultimapTableDefinition, MultimapTableHandle, ReadableDatabase,
+    ReadableMultimapTable, ReadableTable, Savepoint, TableDefinition, TableHandle,
+};
 use rv_harness::backend::{Op, RecBackend};
-use rv_harness::{catch, silence_panics};
+use rv_harness::{Rng, catch, hex, seed_from_env, silence_panics, tier_is_thorough};
+use std::collections::{BTreeMap, BTreeSet};
+use std::fmt::Write as _;
 
-const T: TableDefinition<u64, &[u8]> = TableDefinition::new("t");
+const HDR: usize = 320;
+const GOD: usize = 9;
+const SLOT0: usize = 64;
+const SLOT1: usize = 192;
+const SLOT_LEN: usize = 128;
+const CKS: usize = 112;
 
-fn open(data: Vec<u8>) -> (Result<Database, String>, RecBackend) {
-    let b = RecBackend::with_data(data);
-    let h = b.handle();
-    let r = catch(|| Builder::new().create_with_backend(b).map_err(|e| format!("{e:?}")));
-    let r = match r {
+const TNAMES: [&str; 3] = ["t0", "t1", "t2"];
+const MNAMES: [&str; 2] = ["m0", "m1"];
+
+fn tdef(name: &'static str) -> TableDefinition<'static, u64, &'static [u8]> {
+    TableDefinition::new(name)
+}
+fn mdef(name: &'static str) -> MultimapTableDefinition<'static, u64, &'static [u8]> {
+    MultimapTableDefinition::new(name)
+}
+
+// ------------------------------------------------------------------------------------------ spec
+
+#[derive(Clone, PartialEq, Eq, Default, Debug)]
+struct Content {
+    tables: BTreeMap<String, BTreeMap<u64, Vec<u8>>>,
+    mm: BTreeMap<String, BTreeMap<u64, BTreeSet<Vec<u8>>>>,
+}
+
+#[derive(Clone, PartialEq, Eq, Default, Debug)]
+struct Spec {
+    c: Content,
+    sps: BTreeSet<u64>,
+}
+
+/// canonical digest of "all tables + persistent savepoints"
+fn digest_parts(
+    tables: &BTreeMap<String, BTreeMap<u64, Vec<u8>>>,
+    mm: &BTreeMap<String, BTreeMap<u64, BTreeSet<Vec<u8>>>>,
+    sps: &BTreeSet<u64>,
+) -> String {
+    let mut buf: Vec<u8> = vec![];
+    let mut summary = String::new();
+    for (n, t) in tables {
+        buf.extend(b"T");
+        buf.extend(n.as_bytes());
+        buf.push(0);
+        for (k, v) in t {
+            buf.extend(k.to_le_bytes());
+            buf.extend((v.len() as u64).to_le_bytes());
+            buf.extend(v);
+        }
+        write!(summary, "{}:{} ", n, t.len()).unwrap();
+    }
+    for (n, t) in mm {
+        buf.extend(b"M");
+        buf.extend(n.as_bytes());
+        buf.push(0);
+        let mut cnt = 0;
+        for (k, vs) in t {
+            buf.extend(k.to_le_bytes());
+            buf.extend((vs.len() as u64).to_le_bytes());
+            for v in vs {
+                buf.extend((v.len() as u64).to_le_bytes());
+                buf.extend(v);
+                cnt += 1;
+            }
+        }
+        write!(summary, "{}:{}/{} ", n, t.len(), cnt).unwrap();
+    }
+    buf.extend(b"S");
+    for s in sps {
+        buf.extend(s.to_le_bytes());
+    }
+    write!(summary, "sp:{:?}", sps.iter().collect::<Vec<_>>()).unwrap();
+    format!("{:032x} {}", redb::verif::xxh3_128(&buf), summary)
+}
+
+impl Spec {
+    fn digest(&self) -> String {
+        digest_parts(&self.c.tables, &self.c.mm, &self.sps)
+    }
+}
+
+/// dump of the real database: all tables, all multimap tables, persistent savepoints
+fn dump(db: &Database) -> Result<String, String> {
+    let r = catch(|| -> Result<String, String> {
+        let rt = db.begin_read().map_err(|e| format!("begin_read: {e:?}"))?;
+        let mut tables = BTreeMap::new();
+        let mut names: Vec<String> = rt
+            .list_tables()
+            .map_err(|e| format!("list_tables: {e:?}"))?
+            .map(|h| h.name().to_string())
+            .collect();
+        names.sort();
+        for n in names {
+            let Some(sn) = TNAMES.iter().find(|x| **x == n) else {
+                return Err(format!("unknown table {n}"));
+            };
+            let t = rt.open_table(tdef(sn)).map_err(|e| format!("open_table {n}: {e:?}"))?;
+            let mut m = BTreeMap::new();
+            for e in t.iter().map_err(|e| format!("iter {n}: {e:?}"))? {
+                let (k, v) = e.map_err(|e| format!("iter item {n}: {e:?}"))?;
+                m.insert(k.value(), v.value().to_vec());
+            }
+            tables.insert(n, m);
+        }
+        let mut mm = BTreeMap::new();
+        let mut names: Vec<String> = rt
+            .list_multimap_tables()
+            .map_err(|e| format!("list_multimap_tables: {e:?}"))?
+            .map(|h| h.name().to_string())
+            .collect();
+        names.sort();
+        for n in names {
+            let Some(sn) = MNAMES.iter().find(|x| **x == n) else {
+                return Err(format!("unknown multimap table {n}"));
+            };
+            let t = rt
+                .open_multimap_table(mdef(sn))
+                .map_err(|e| format!("open_multimap_table {n}: {e:?}"))?;
+            let mut m: BTreeMap<u64, BTreeSet<Vec<u8>>> = BTreeMap::new();
+            for e in t.iter().map_err(|e| format!("mm iter {n}: {e:?}"))? {
+                let (k, vs) = e.map_err(|e| format!("mm iter item {n}: {e:?}"))?;
+                let mut set = BTreeSet::new();
+                for v in vs {
+                    set.insert(v.map_err(|e| format!("mm value {n}: {e:?}"))?.value().to_vec());
+                }
+                m.insert(k.value(), set);
+            }
+            mm.insert(n, m);
+        }
+        drop(rt);
+        let wt = db.begin_write().map_err(|e| format!("begin_write: {e:?}"))?;
+        let sps: BTreeSet<u64> = wt
+            .list_persistent_savepoints()
+            .map_err(|e| format!("list_persistent_savepoints: {e:?}"))?
+            .collect();
+        wt.abort().map_err(|e| format!("abort: {e:?}"))?;
+        Ok(digest_parts(&tables, &mm, &sps))
+    });
+    match r {
+        Ok(x) => x,
+        Err(p) => Err(format!("PANIC {p}")),
+    }
+}
+
+// ------------------------------------------------------------------------------------------ config
+
+#[derive(Clone, Copy, Debug)]
+struct Cfg {
+    page_size: usize,
+    region_pages: u64,
+    cache: usize,
+}
+
+impl Cfg {
+    fn region_size(&self) -> u64 {
+        self.region_pages * self.page_size as u64
+    }
+    fn max_value(&self) -> usize {
+        // a value must fit into one page allocation inside one region
+        (self.region_size() / 4) as usize
+    }
+    fn describe(&self) -> String {
+        format!("page_size={} region_pages={} cache={}", self.page_size, self.region_pages, self.cache)
+    }
+}
+
+fn open_db(cfg: &Cfg, backend: RecBackend) -> Result<Database, String> {
+    let r = catch(|| {
+        let mut b = Builder::new();
+        b.verif_set_page_size(cfg.page_size);
+        b.verif_set_region_size(cfg.region_size());
+        b.set_cache_size(cfg.cache);
+        b.create_with_backend(backend).map_err(|e| format!("{e:?}"))
+    });
+    match r {
         Ok(Ok(d)) => Ok(d),
         Ok(Err(e)) => Err(e),
         Err(p) => Err(format!("PANIC {p}")),
-    };
-    (r, h)
-}
-
-fn dump(db: &Database) -> String {
-    let r = db.begin_read().unwrap();
-    match r.open_table(T) {
-        Ok(t) => {
-            let mut s = String::new();
-            for e in t.iter().unwrap() {
-                let (k, v) = e.unwrap();
-                s += &format!("{}={} ", k.value(), v.value().len());
-            }
-            s
-        }
-        Err(e) => format!("notable {e:?}"),
     }
 }
 
-fn show(ops: &[Op]) {
-    for o in ops {
-        match o {
-            Op::Write { off, data } => {
-                if *off == 0 {
-                    println!("  W hdr len={} god={:#x}", data.len(), data[9]);
+// ------------------------------------------------------------------------------------------ histories
+
+#[derive(Clone, Debug)]
+enum TOp {
+    Insert(usize, u64, usize, u8), // table, key, value len, fill
+    Remove(usize, u64),
+    MInsert(usize, u64, usize, u8),
+    MRemove(usize, u64, usize, u8),
+    MRemoveAll(usize, u64),
+    DeleteTable(usize),
+    DeleteMTable(usize),
+    Bulk(usize, u64, u64, usize), // table, first key, count, value len
+    BulkRemove(usize, u64, u64),
+}
+
+#[derive(Clone, Debug)]
+enum SpAct {
+    None,
+    CreatePersistent,
+    RestorePersistent(u64),
+    DeletePersistent(u64),
+    CreateEphemeral,
+    RestoreEphemeral(usize),
+}
+
+#[derive(Clone, Debug)]
+struct Txn {
+    durable: bool,
+    two_phase: bool,
+    quick_repair: bool,
+    sp: SpAct,
+    ops: Vec<TOp>,
+    abort: bool,
+}
+
+#[derive(Clone, Debug)]
+enum Step {
+    T(Txn),
+    Reopen,
+    Compact,
+    DropEphemeral(usize),
+}
+
+fn value(len: usize, fill: u8, key: u64) -> Vec<u8> {
+    let mut v = vec![fill; len];
+    let kb = key.to_le_bytes();
+    for (i, b) in v.iter_mut().enumerate().take(8) {
+        *b ^= kb[i];
+    }
+    v
+}
+
+/// position marks into the recorded operation stream
+#[derive(Clone, Debug, Default)]
+struct Marks {
+    /// (position in ops, commit point index): commit point requested when ops.len() == position
+    requested: Vec<(usize, usize)>,
+    /// (position, commit point index): acknowledged durable once ops.len() == position
+    acked: Vec<(usize, usize)>,
+}
+
+impl Marks {
+    fn lo(&self, k: usize) -> usize {
+        self.acked.iter().filter(|(p, _)| *p <= k).map(|(_, c)| *c).max().unwrap_or(0)
+    }
+    fn hi(&self, k: usize) -> usize {
+        self.requested.iter().filter(|(p, _)| *p < k).map(|(_, c)| *c).max().unwrap_or(0)
+    }
+}
+
+/// one run of the real crate on one backend: from an initial image through open, steps, (clean close)
+struct Run {
+    cfg: Cfg,
+    start_image: Vec<u8>,
+    ops: Vec<Op>,
+    /// position after which crash points are meaningful (creation / open completed)
+    ready_pos: usize,
+    cps: Vec<Spec>,
+    cp_digests: Vec<String>,
+    saved_all: BTreeMap<u64, Content>,
+    marks: Marks,
+    steps: Vec<String>,
+    error: Option<String>,
+    markers: BTreeSet<&'static str>,
+}
+
+struct Live {
+    db: Option<Database>,
+    handle: RecBackend,
+    spec: Spec,
+    /// captured contents of persistent savepoints (id -> content at creation)
+    saved: BTreeMap<u64, Content>,
+    ephemeral: Vec<Option<(Savepoint, Content, u64)>>,
+    pending_nondurable: bool,
+}
+
+fn sync_ops(run: &mut Run, live: &Live) {
+    run.ops.extend(live.handle.take_ops());
+}
+
+fn gen_txn(r: &mut Rng, cfg: &Cfg, live: &Live, force_plain: bool) -> Txn {
+    let durable = force_plain || r.chance(2, 3);
+    let mode = r.below(6);
+    let two_phase = durable && mode == 0;
+    let quick_repair = durable && mode == 1;
+    let mut sp = SpAct::None;
+    if durable && !force_plain && r.chance(1, 5) {
+        let ids: Vec<u64> = live.spec.sps.iter().copied().filter(|i| live.saved.contains_key(i)).collect();
+        let eph: Vec<usize> =
+            live.ephemeral.iter().enumerate().filter(|(_, e)| e.is_some()).map(|(i, _)| i).collect();
+        sp = match r.below(5) {
+            0 | 1 => SpAct::CreatePersistent,
+            2 if !ids.is_empty() => SpAct::RestorePersistent(*r.pick(&ids)),
+            3 if !ids.is_empty() => SpAct::DeletePersistent(*r.pick(&ids)),
+            4 if !eph.is_empty() => SpAct::RestoreEphemeral(*r.pick(&eph)),
+            _ => SpAct::CreateEphemeral,
+        };
+    }
+    let nops = r.range(1, 5);
+    let mut ops = vec![];
+    let small = [0usize, 1, 8, 40, 100, 300];
+    for _ in 0..nops {
+        let t = r.below(TNAMES.len() as u64) as usize;
+        let m = r.below(MNAMES.len() as u64) as usize;
+        let key = r.below(24);
+        let len = if r.chance(1, 6) {
+            r.range(cfg.page_size as u64 / 2, cfg.max_value() as u64) as usize
+        } else {
+            *r.pick(&small)
+        };
+        let fill = r.below(250) as u8;
+        ops.push(match r.below(16) {
+            0..=4 => TOp::Insert(t, key, len, fill),
+            5 | 6 => TOp::Remove(t, key),
+            7 | 8 => TOp::MInsert(m, key % 6, len.min(cfg.page_size / 4), fill % 5),
+            9 => TOp::MRemove(m, key % 6, len.min(cfg.page_size / 4), fill % 5),
+            10 => TOp::MRemoveAll(m, key % 6),
+            11 => {
+                if r.chance(1, 3) {
+                    TOp::DeleteTable(t)
                 } else {
-                    println!("  W {off} len={}", data.len());
+                    TOp::Remove(t, key)
                 }
             }
-            Op::SetLen(n) => println!("  SETLEN {n}"),
-            Op::Sync => println!("  SYNC"),
-            Op::Close => println!("  CLOSE"),
+            12 => {
+                if r.chance(1, 3) {
+                    TOp::DeleteMTable(m)
+                } else {
+                    TOp::MRemoveAll(m, key % 6)
+                }
+            }
+            13 => TOp::Bulk(t, 1000 + r.below(4) * 100, r.range(8, 60), r.range(64, cfg.max_value() as u64) as usize),
+            14 => TOp::BulkRemove(t, 1000 + r.below(4) * 100, r.range(8, 100)),
+            _ => TOp::Insert(t, key, len, fill),
+        });
+    }
+    Txn { durable, two_phase, quick_repair, sp, ops, abort: !force_plain && r.chance(1, 12) }
+}
+
+fn apply_spec(c: &mut Content, op: &TOp) {
+    match op {
+        TOp::Insert(t, k, len, fill) => {
+            c.tables.entry(TNAMES[*t].to_string()).or_default().insert(*k, value(*len, *fill, *k));
+        }
+        TOp::Remove(t, k) => {
+            c.tables.entry(TNAMES[*t].to_string()).or_default().remove(k);
+        }
+        TOp::MInsert(m, k, len, fill) => {
+            c.mm.entry(MNAMES[*m].to_string()).or_default().entry(*k).or_default().insert(value(*len, *fill, *k));
+        }
+        TOp::MRemove(m, k, len, fill) => {
+            let t = c.mm.entry(MNAMES[*m].to_string()).or_default();
+            if let Some(s) = t.get_mut(k) {
+                s.remove(&value(*len, *fill, *k));
+                if s.is_empty() {
+                    t.remove(k);
+                }
+            }
+        }
+        TOp::MRemoveAll(m, k) => {
+            c.mm.entry(MNAMES[*m].to_string()).or_default().remove(k);
+        }
+        TOp::DeleteTable(t) => {
+            c.tables.remove(TNAMES[*t]);
+        }
+        TOp::DeleteMTable(m) => {
+            c.mm.remove(MNAMES[*m]);
+        }
+        TOp::Bulk(t, first, count, len) => {
+            let tb = c.tables.entry(TNAMES[*t].to_string()).or_default();
+            for i in 0..*count {
+                tb.insert(first + i, value(*len, (i % 200) as u8, first + i));
+            }
+        }
+        TOp::BulkRemove(t, first, count) => {
+            let tb = c.tables.entry(TNAMES[*t].to_string()).or_default();
+            for i in 0..*count {
+                tb.remove(&(first + i));
+            }
+        }
+    }
+}
+
+fn apply_real(w: &redb::WriteTransaction, op: &TOp) -> Result<(), String> {
+    let e = |x: &dyn std::fmt::Debug| format!("{x:?}");
+    match op {
+        TOp::Insert(t, k, len, fill) => {
+            let mut tb = w.open_table(tdef(TNAMES[*t])).map_err(|x| e(&x))?;
+            tb.insert(*k, value(*len, *fill, *k).as_slice()).map_err(|x| e(&x))?;
+        }
+        TOp::Remove(t, k) => {
+            let mut tb = w.open_table(tdef(TNAMES[*t])).map_err(|x| e(&x))?;
+            tb.remove(*k).map_err(|x| e(&x))?;
+        }
+        TOp::MInsert(m, k, len, fill) => {
+            let mut tb = w.open_multimap_table(mdef(MNAMES[*m])).map_err(|x| e(&x))?;
+            tb.insert(*k, value(*len, *fill, *k).as_slice()).map_err(|x| e(&x))?;
+        }
+        TOp::MRemove(m, k, len, fill) => {
+            let mut tb = w.open_multimap_table(mdef(MNAMES[*m])).map_err(|x| e(&x))?;
+            tb.remove(*k, value(*len, *fill, *k).as_slice()).map_err(|x| e(&x))?;
+        }
+        TOp::MRemoveAll(m, k) => {
+            let mut tb = w.open_multimap_table(mdef(MNAMES[*m])).map_err(|x| e(&x))?;
+            tb.remove_all(*k).map_err(|x| e(&x))?;
+        }
+        TOp::DeleteTable(t) => {
+            w.delete_table(tdef(TNAMES[*t])).map_err(|x| e(&x))?;
+        }
+        TOp::DeleteMTable(m) => {
+            w.delete_multimap_table(mdef(MNAMES[*m])).map_err(|x| e(&x))?;
+        }
+        TOp::Bulk(t, first, count, len) => {
+            let mut tb = w.open_table(tdef(TNAMES[*t])).map_err(|x| e(&x))?;
+            for i in 0..*count {
+                tb.insert(first + i, value(*len, (i % 200) as u8, first + i).as_slice()).map_err(|x| e(&x))?;
+            }
+        }
+        TOp::BulkRemove(t, first, count) => {
+            let mut tb = w.open_table(tdef(TNAMES[*t])).map_err(|x| e(&x))?;
+            for i in 0..*count {
+                tb.remove(first + i).map_err(|x| e(&x))?;
+            }
+        }
+    }
+    Ok(())
+}
+
+/// run one transaction on the real crate and on the spec; records marks
+fn run_txn(run: &mut Run, live: &mut Live, t: &Txn) -> Result<(), String> {
+    let e = |x: &dyn std::fmt::Debug| format!("{x:?}");
+    let db = live.db.as_ref().unwrap();
+    let mut w = db.begin_write().map_err(|x| e(&x))?;
+    if !t.durable {
+        w.set_durability(Durability::None).map_err(|x| e(&x))?;
+        run.markers.insert("nondurable");
+    }
+    if t.two_phase {
+        w.set_two_phase_commit(true);
+        run.markers.insert("2pc");
+    }
+    if t.quick_repair {
+        w.set_quick_repair(true);
+        run.markers.insert("quick-repair");
+    }
+    let mut spec = live.spec.clone();
+    let mut new_saved: Option<(u64, Content)> = None;
+    let mut new_eph: Option<(Savepoint, Content, u64)> = None;
+    match &t.sp {
+        SpAct::None => {}
+        SpAct::CreatePersistent => {
+            let id = w.persistent_savepoint().map_err(|x| e(&x))?;
+            spec.sps.insert(id);
+            new_saved = Some((id, live.spec.c.clone()));
+            run.markers.insert("savepoint-create");
+        }
+        SpAct::RestorePersistent(id) => {
+            let sp = w.get_persistent_savepoint(*id).map_err(|x| e(&x))?;
+            w.restore_savepoint(&sp).map_err(|x| e(&x))?;
+            spec.c = live.saved.get(id).ok_or("spec lost savepoint")?.clone();
+            spec.sps.retain(|x| x <= id);
+            run.markers.insert("savepoint-restore");
+        }
+        SpAct::DeletePersistent(id) => {
+            let existed = w.delete_persistent_savepoint(*id).map_err(|x| e(&x))?;
+            if !existed {
+                return Err(format!("delete_persistent_savepoint({id}) returned false"));
+            }
+            spec.sps.remove(id);
+            run.markers.insert("savepoint-delete");
+        }
+        SpAct::CreateEphemeral => {
+            let sp = w.ephemeral_savepoint().map_err(|x| e(&x))?;
+            // its id orders it among the persistent ones
+            let next_id = spec.sps.iter().max().map_or(0, |x| x + 1);
+            new_eph = Some((sp, live.spec.c.clone(), next_id));
+        }
+        SpAct::RestoreEphemeral(i) => {
+            if let Some((sp, c, _)) = live.ephemeral[*i].as_ref() {
+                match w.restore_savepoint(sp) {
+                    Ok(()) => {
+                        spec.c = c.clone();
+                        // persistent savepoints created after it are deleted: ask the real txn
+                        let remaining: BTreeSet<u64> =
+                            w.list_persistent_savepoints().map_err(|x| e(&x))?.collect();
+                        // they can only be a subset of what the spec had
+                        if !remaining.is_subset(&spec.sps) {
+                            return Err("restore_savepoint invented savepoints".into());
+                        }
+                        spec.sps = remaining;
+                        run.markers.insert("savepoint-restore-ephemeral");
+                    }
+                    Err(redb::SavepointError::InvalidSavepoint) => {}
+                    Err(x) => return Err(e(&x)),
+                }
+            }
+        }
+    }
+    for op in &t.ops {
+        apply_real(&w, op)?;
+        apply_spec(&mut spec.c, op);
+        match op {
+            TOp::Bulk(..) => {
+                run.markers.insert("bulk-insert");
+            }
+            TOp::BulkRemove(..) => {
+                run.markers.insert("bulk-remove");
+            }
+            TOp::MInsert(..) => {
+                run.markers.insert("multimap");
+            }
+            TOp::DeleteTable(..) | TOp::DeleteMTable(..) => {
+                run.markers.insert("delete-table");
+            }
             _ => {}
         }
     }
+    if t.abort {
+        w.abort().map_err(|x| e(&x))?;
+        sync_ops(run, live);
+        run.markers.insert("abort");
+        return Ok(());
+    }
+    sync_ops(run, live);
+    let idx = run.cps.len();
+    run.cp_digests.push(spec.digest());
+    run.cps.push(spec.clone());
+    run.marks.requested.push((run.ops.len(), idx));
+    w.commit().map_err(|x| e(&x))?;
+    sync_ops(run, live);
+    if t.durable {
+        run.marks.acked.push((run.ops.len(), idx));
+        live.pending_nondurable = false;
+    } else {
+        live.pending_nondurable = true;
+    }
+    live.spec = spec;
+    if let Some((id, c)) = new_saved {
+        run.saved_all.insert(id, c.clone());
+        live.saved.insert(id, c);
+    }
+    if let Some(x) = new_eph {
+        live.ephemeral.push(Some(x));
+    }
+    // invalidate ephemeral savepoints on the spec side lazily: redb reports InvalidSavepoint
+    Ok(())
+}
+
+fn live_check(run: &mut Run, live: &Live, what: &str) -> Result<(), String> {
+    let d = dump(live.db.as_ref().unwrap())?;
+    let s = live.spec.digest();
+    if d != s {
+        return Err(format!("live database differs from the specification after {what}: real={d} spec={s}"));
+    }
+    let _ = run;
+    Ok(())
+}
+
+fn do_step(run: &mut Run, live: &mut Live, step: &Step) -> Result<(), String> {
+    match step {
+        Step::T(t) => {
+            run_txn(run, live, t)?;
+            live_check(run, live, "commit")?;
+        }
+        Step::Reopen => {
+            for e in live.ephemeral.iter_mut() {
+                *e = None;
+            }
+            let db = live.db.take().unwrap();
+            drop(db);
+            sync_ops(run, live);
+            // a clean close persists everything committed so far
+            let last = run.cps.len() - 1;
+            run.marks.acked.push((run.ops.len(), last));
+            live.pending_nondurable = false;
+            let backend = live.handle.handle();
+            let db = open_db(&run.cfg, backend)?;
+            live.db = Some(db);
+            sync_ops(run, live);
+            run.markers.insert("clean-reopen");
+            live_check(run, live, "reopen")?;
+        }
+        Step::Compact => {
+            for e in live.ephemeral.iter_mut() {
+                *e = None;
+            }
+            let db = live.db.as_mut().unwrap();
+            match catch(|| db.compact()) {
+                Ok(Ok(_)) => {
+                    run.markers.insert("compact");
+                    // compaction commits durably; content is unchanged
+                    sync_ops(run, live);
+                    let last = run.cps.len() - 1;
+                    run.marks.acked.push((run.ops.len(), last));
+                    live.pending_nondurable = false;
+                }
+                Ok(Err(redb::CompactionError::PersistentSavepointExists))
+                | Ok(Err(redb::CompactionError::EphemeralSavepointExists)) => {}
+                Ok(Err(x)) => return Err(format!("compact: {x:?}")),
+                Err(p) => return Err(format!("compact PANIC {p}")),
+            }
+            sync_ops(run, live);
+            live_check(run, live, "compact")?;
+        }
+        Step::DropEphemeral(i) => {
+            if *i < live.ephemeral.len() {
+                live.ephemeral[*i] = None;
+            }
+        }
+    }
+    Ok(())
+}
+
+fn gen_step(r: &mut Rng, cfg: &Cfg, live: &Live) -> Step {
+    match r.below(14) {
+        0 => Step::Reopen,
+        1 => Step::Compact,
+        2 if !live.ephemeral.is_empty() => Step::DropEphemeral(r.below(live.ephemeral.len() as u64) as usize),
+        _ => Step::T(gen_txn(r, cfg, live, false)),
+    }
+}
+
+/// Opens `image` with the real crate on a recording backend and runs `n_steps` generated steps.
+/// `base` is the specification of the contents the image is expected to show (None: fresh database).
+fn run_history(
+    r: &mut Rng,
+    cfg: Cfg,
+    image: Vec<u8>,
+    base: Option<(Spec, BTreeMap<u64, Content>)>,
+    n_steps: usize,
+    final_close: bool,
+) -> Run {
+    let backend = RecBackend::with_data(image.clone());
+    let handle = backend.handle();
+    let mut run = Run {
+        cfg,
+        start_image: image,
+        ops: vec![],
+        ready_pos: 0,
+        cps: vec![],
+        cp_digests: vec![],
+        saved_all: BTreeMap::new(),
+        marks: Marks::default(),
+        steps: vec![],
+        error: None,
+        markers: BTreeSet::new(),
+    };
+    let db = match open_db(&cfg, backend) {
+        Ok(db) => db,
+        Err(e) => {
+            run.ops = handle.take_ops();
+            run.error = Some(format!("open failed: {e}"));
+            return run;
+        }
+    };
+    let (spec, saved) = base.unwrap_or_default();
+    let mut live = Live { db: Some(db), handle, spec: spec.clone(), saved, ephemeral: vec![], pending_nondurable: false };
+    sync_ops(&mut run, &live);
+    run.ready_pos = run.ops.len();
+    run.cp_digests.push(spec.digest());
+    run.cps.push(spec);
+    run.marks.requested.push((0, 0));
+    run.marks.acked.push((0, 0));
+    for i in 0..n_steps {
+        let step = if i == 0 { Step::T(gen_txn(r, &cfg, &live, true)) } else { gen_step(r, &cfg, &live) };
+        run.steps.push(format!("{step:?}"));
+        let res = match catch(|| do_step(&mut run, &mut live, &step)) {
+            Ok(x) => x,
+            Err(p) => Err(format!("PANIC {p}")),
+        };
+        if let Err(e) = res {
+            run.error = Some(format!("step {i} {step:?}: {e}"));
+            sync_ops(&mut run, &live);
+            // leave the database alone: the recorded stream up to here is still valid material
+            live.handle.0.lock().unwrap().record = false;
+            if let Some(db) = live.db.take() {
+                let eph = std::mem::take(&mut live.ephemeral);
+                let _ = catch(move || {
+                    drop(eph);
+                    drop(db);
+                });
+            }
+            return run;
+        }
+    }
+    live.ephemeral.clear();
+    let db = live.db.take().unwrap();
+    if final_close {
+        drop(db);
+        sync_ops(&mut run, &live);
+        let last = run.cps.len() - 1;
+        run.marks.acked.push((run.ops.len(), last));
+        run.markers.insert("final-close");
+    } else {
+        // process "dies": nothing more reaches the backend
+        live.handle.0.lock().unwrap().record = false;
+        drop(db);
+    }
+    run
+}
+
+// ------------------------------------------------------------------------------------------ crash images
+
+#[derive(Clone, Debug, PartialEq, Eq)]
+enum Fate {
+    Drop,
+    Full,
+    /// apply only these byte ranges (relative to the write) of a write
+    Part(Vec<(usize, usize)>),
+}
+
+#[derive(Clone, Debug)]
+struct Choice {
+    kind: &'static str,
+    /// crash after ops[..k] were issued
+    k: usize,
+    /// fate of every pending op (ops[sync_pos..k])
+    fates: Vec<Fate>,
+}
+
+fn apply_fates(durable: &[u8], pending: &[Op], fates: &[Fate]) -> Vec<u8> {
+    let mut img = durable.to_vec();
+    for (op, f) in pending.iter().zip(fates) {
+        match (op, f) {
+            (_, Fate::Drop) => {}
+            (Op::SetLen(n), _) => img.resize(*n as usize, 0),
+            (Op::Write { off, data }, f) => {
+                let off = *off as usize;
+                let ranges = match f {
+                    Fate::Full => vec![(0, data.len())],
+                    Fate::Part(r) => r.clone(),
+                    Fate::Drop => vec![],
+                };
+                for (a, b) in ranges {
+                    for i in a..b.min(data.len()) {
+                        if off + i < img.len() {
+                            img[off + i] = data[i];
+                        }
+                    }
+                }
+            }
+            _ => {}
+        }
+    }
+    img
+}
+
+/// positions (exclusive ends) at which the 320-byte header write is torn
+const HDR_CUTS: [usize; 17] = [9, 10, 12, 24, 28, 32, 64, 65, 72, 104, 168, 176, 184, 192, 200, 296, 304];
+
+fn is_hdr(op: &Op) -> bool {
+    matches!(op, Op::Write { off: 0, data } if data.len() == HDR)
+}
+
+/// adversarial choices for the window that is open at position k (pending = ops[s..k])
+fn choices_for(r: &mut Rng, durable: &[u8], pending: &[Op], k: usize, budget: usize, rot: usize) -> Vec<Choice> {
+    let n = pending.len();
+    let mut out: Vec<Choice> = vec![];
+    let all = |f: Fate| vec![f; n];
+    let hdr_idx: Vec<usize> = (0..n).filter(|i| is_hdr(&pending[*i])).collect();
+    let setlen_idx: Vec<usize> = (0..n).filter(|i| matches!(pending[*i], Op::SetLen(_))).collect();
+    out.push(Choice { kind: "all-applied", k, fates: all(Fate::Full) });
+    out.push(Choice { kind: "none-applied", k, fates: all(Fate::Drop) });
+    if let Some(&h) = hdr_idx.last() {
+        // only the god byte
+        let mut f = all(Fate::Drop);
+        f[h] = Fate::Part(vec![(GOD, GOD + 1)]);
+        out.push(Choice { kind: "god-byte-only", k, fates: f });
+        // header without data
+        let mut f = all(Fate::Drop);
+        for &h in &hdr_idx {
+            f[h] = Fate::Full;
+        }
+        out.push(Choice { kind: "header-without-data", k, fates: f });
+        // data without header
+        let mut f = all(Fate::Full);
+        for &h in &hdr_idx {
+            f[h] = Fate::Drop;
+        }
+        out.push(Choice { kind: "data-without-header", k, fates: f });
+        // everything but the god byte
+        let mut f = all(Fate::Full);
+        f[h] = Fate::Part(vec![(0, GOD), (GOD + 1, HDR)]);
+        out.push(Choice { kind: "all-but-god-byte", k, fates: f });
+        // tears of the header at field boundaries, with all / none of the data
+        for &cut in &HDR_CUTS {
+            for (data_fate, tag) in [(Fate::Full, "data"), (Fate::Drop, "nodata")] {
+                let mut f = all(data_fate.clone());
+                f[h] = Fate::Part(vec![(0, cut)]);
+                out.push(Choice {
+                    kind: if tag == "data" { "header-prefix-torn+data" } else { "header-prefix-torn" },
+                    k,
+                    fates: f,
+                });
+                let mut f = all(data_fate);
+                f[h] = Fate::Part(vec![(cut, HDR)]);
+                out.push(Choice {
+                    kind: if tag == "data" { "header-suffix-torn+data" } else { "header-suffix-torn" },
+                    k,
+                    fates: f,
+                });
+            }
+        }
+        // tears inside the slot this header write changes: only its transaction id (+ optionally the
+        // checksum) new over the old roots; only its roots new under the old transaction id
+        if let (Op::Write { data, .. }, true) = (&pending[h], durable.len() >= HDR) {
+            for base in [SLOT0, SLOT1] {
+                if data[base..base + SLOT_LEN] != durable[base..base + SLOT_LEN] {
+                    for (kind, ranges) in [
+                        ("slot-txid-torn", vec![(base + 104, base + CKS)]),
+                        ("slot-txid+checksum-torn", vec![(base + 104, base + SLOT_LEN)]),
+                        ("slot-roots-torn", vec![(base, base + 104)]),
+                    ] {
+                        let mut f = all(Fate::Drop);
+                        f[h] = Fate::Part(ranges.clone());
+                        out.push(Choice { kind, k, fates: f });
+                        let mut f = all(Fate::Drop);
+                        let mut rg = ranges.clone();
+                        rg.push((GOD, GOD + 1));
+                        f[h] = Fate::Part(rg);
+                        out.push(Choice { kind, k, fates: f });
+                    }
+                }
+            }
+        }
+        // god byte + slot bytes but not the checksum, and the reverse
+        let mut f = all(Fate::Full);
+        f[h] = Fate::Part(vec![(GOD, GOD + 1), (SLOT0 + CKS, SLOT0 + SLOT_LEN), (SLOT1 + CKS, SLOT1 + SLOT_LEN)]);
+        out.push(Choice { kind: "god+checksums-only", k, fates: f });
+    }
+    // each single write dropped, each single write alone
+    for i in 0..n {
+        let mut f = all(Fate::Full);
+        f[i] = Fate::Drop;
+        out.push(Choice { kind: "single-dropped", k, fates: f });
+        if !is_hdr(&pending[i]) {
+            if let Op::Write { data, .. } = &pending[i] {
+                let mut f = all(Fate::Full);
+                f[i] = Fate::Part(vec![(0, data.len() / 2)]);
+                out.push(Choice { kind: "page-torn", k, fates: f });
+            }
+        }
+    }
+    // every prefix
+    for j in 1..n {
+        let mut f = all(Fate::Drop);
+        for x in f.iter_mut().take(j) {
+            *x = Fate::Full;
+        }
+        out.push(Choice { kind: "prefix", k, fates: f });
+    }
+    // set_len dropped / alone
+    for &s in &setlen_idx {
+        let mut f = all(Fate::Full);
+        f[s] = Fate::Drop;
+        out.push(Choice { kind: "setlen-dropped", k, fates: f });
+        let mut f = all(Fate::Drop);
+        f[s] = Fate::Full;
+        out.push(Choice { kind: "setlen-only", k, fates: f });
+    }
+    // random subsets with random tears
+    for _ in 0..4 {
+        let f: Vec<Fate> = (0..n)
+            .map(|i| match r.below(4) {
+                0 => Fate::Drop,
+                1 => {
+                    if let Op::Write { data, .. } = &pending[i] {
+                        let a = r.below(data.len() as u64 + 1) as usize;
+                        let b = r.below(data.len() as u64 + 1) as usize;
+                        Fate::Part(vec![(a.min(b), a.max(b))])
+                    } else {
+                        Fate::Full
+                    }
+                }
+                _ => Fate::Full,
+            })
+            .collect();
+        out.push(Choice { kind: "random-subset", k, fates: f });
+    }
+    // dedupe identical fates, then sample down to the budget keeping one of each kind first
+    let mut seen: Vec<Vec<Fate>> = vec![];
+    out.retain(|c| {
+        if seen.contains(&c.fates) {
+            false
+        } else {
+            seen.push(c.fates.clone());
+            true
+        }
+    });
+    if out.len() > budget {
+        const PRIORITY: [&str; 10] = [
+            "god-byte-only",
+            "all-but-god-byte",
+            "slot-txid-torn",
+            "header-without-data",
+            "data-without-header",
+            "slot-txid+checksum-torn",
+            "all-applied",
+            "setlen-dropped",
+            "slot-roots-torn",
+            "setlen-only",
+        ];
+        let mut kept: Vec<Choice> = vec![];
+        let mut kinds: BTreeSet<&'static str> = BTreeSet::new();
+        let mut rest: Vec<Choice> = vec![];
+        // shuffle deterministically
+        let mut idx: Vec<usize> = (0..out.len()).collect();
+        for i in (1..idx.len()).rev() {
+            let j = r.below(i as u64 + 1) as usize;
+            idx.swap(i, j);
+        }
+        // the classic adversarial images first (rotating over the crash points of a history so that a
+        // small per-point budget still covers all of them), then one of each other kind, then the rest
+        for i in 0..PRIORITY.len() {
+            let p = PRIORITY[(rot + i) % PRIORITY.len()];
+            if let Some(c) = out.iter().find(|c| c.kind == p) {
+                if kept.len() < budget && kinds.insert(p) {
+                    kept.push(c.clone());
+                }
+            }
+        }
+        for i in idx {
+            let c = out[i].clone();
+            if kept.iter().any(|x| x.fates == c.fates) {
+                continue;
+            }
+            if kinds.insert(c.kind) && kept.len() < budget {
+                kept.push(c);
+            } else {
+                rest.push(c);
+            }
+        }
+        while kept.len() < budget && !rest.is_empty() {
+            kept.push(rest.pop().unwrap());
+        }
+        out = kept;
+    }
+    out
+}
+
+/// the durable image and the index of the first pending op at crash point k
+fn durable_at(run: &Run, k: usize) -> (Vec<u8>, usize) {
+    let mut img = run.start_image.clone();
+    let mut durable = img.clone();
+    let mut s = 0;
+    for (i, op) in run.ops[..k].iter().enumerate() {
+        match op {
+            Op::Write { off, data } => {
+                let off = *off as usize;
+                if off + data.len() <= img.len() {
+                    img[off..off + data.len()].copy_from_slice(data);
+                }
+            }
+            Op::SetLen(n) => img.resize(*n as usize, 0),
+            Op::Sync => {
+                durable = img.clone();
+                s = i + 1;
+            }
+            _ => {}
+        }
+    }
+    (durable, s)
+}
+
+// ------------------------------------------------------------------------------------------ oracle
+
+#[derive(Clone, Debug)]
+struct Violation {
+    key: String,
+    what: String,
+    replay: String,
+}
+
+struct Stats {
+    histories: u64,
+    images: u64,
+    images_by_kind: BTreeMap<String, u64>,
+    outcome_old: u64,
+    outcome_new: u64,
+    outcome_mid: u64,
+    recovery_images: u64,
+    continuation_images: u64,
+    windows: u64,
+    recover_cases: u64,
+    nontrivial: BTreeSet<String>,
+    markers: BTreeMap<String, u64>,
+    configs: BTreeMap<String, u64>,
+    samples: Vec<String>,
+    integrity_false: u64,
+    run_errors: Vec<String>,
+}
+
+struct Out {
+    windows: String,
+    recover_cases: String,
+    recover_impl: String,
+    violations: Vec<Violation>,
+    stats: Stats,
+}
+
+struct Opened {
+    digest: String,
+    recovery_ops: Vec<Op>,
+    served: (Option<[u8; 32]>, Option<[u8; 32]>),
+    ver: [Option<bool>; 2],
+    integrity: Result<bool, String>,
+    after_image: Vec<u8>,
+}
+
+fn slot_roots(hdr: &[u8], slot: usize) -> (Option<[u8; 32]>, Option<[u8; 32]>) {
+    let base = if slot == 0 { SLOT0 } else { SLOT1 };
+    let s = &hdr[base..base + SLOT_LEN];
+    let u = if s[1] != 0 { Some(s[8..40].try_into().unwrap()) } else { None };
+    let y = if s[2] != 0 { Some(s[40..72].try_into().unwrap()) } else { None };
+    (u, y)
+}
+
+fn slot_cks_real(hdr: &[u8], slot: usize) -> [u8; 16] {
+    let base = if slot == 0 { SLOT0 } else { SLOT1 };
+    redb::verif::xxh3_128(&hdr[base..base + CKS]).to_le_bytes()
+}
+
+fn slot_valid(hdr: &[u8], slot: usize) -> bool {
+    let base = if slot == 0 { SLOT0 } else { SLOT1 };
+    slot_cks_real(hdr, slot) == hdr[base + CKS..base + SLOT_LEN]
+}
+
+/// open a crash image with the real crate; dump; integrity; close cleanly
+fn open_and_dump(cfg: &Cfg, image: &[u8], want_ver: bool, keep: bool) -> Result<(Opened, Option<(Database, RecBackend)>), String> {
+    let backend = RecBackend::with_data(image.to_vec());
+    let handle = backend.handle();
+    let mut db = open_db(cfg, backend)?;
+    let recovery_ops = handle.take_ops();
+    let digest = dump(&db).map_err(|e| format!("dump after open: {e}"))?;
+    let served = catch(|| db.verif_c01_served()).map_err(|p| format!("PANIC {p}"))?.map_err(|e| format!("{e:?}"))?;
+    let mut ver = [None, None];
+    if want_ver {
+        for slot in 0..2 {
+            let (u, y) = slot_roots(image, slot);
+            ver[slot] = match catch(|| db.verif_c01_walk(u, y)) {
+                Ok(Ok((v, _))) => Some(v),
+                _ => Some(false),
+            };
+        }
+    }
+    if keep {
+        let o = Opened { digest, recovery_ops, served: (served.0, served.1), ver, integrity: Ok(true), after_image: vec![] };
+        return Ok((o, Some((db, handle))));
+    }
+    let integrity = match catch(|| db.check_integrity()) {
+        Ok(Ok(b)) => Ok(b),
+        Ok(Err(e)) => Err(format!("{e:?}")),
+        Err(p) => Err(format!("PANIC {p}")),
+    };
+    let digest2 = dump(&db).map_err(|e| format!("dump after check_integrity: {e}"))?;
+    if digest2 != digest {
+        return Err(format!("contents changed by check_integrity: {digest} -> {digest2}"));
+    }
+    handle.0.lock().unwrap().record = false;
+    drop(db);
+    let after_image = handle.snapshot();
+    Ok((Opened { digest, recovery_ops, served: (served.0, served.1), ver, integrity, after_image }, None))
+}
+
+fn describe_choice(pending: &[Op], c: &Choice) -> String {
+    let mut s = format!("kind={} k={} pending=[", c.kind, c.k);
+    for (op, f) in pending.iter().zip(&c.fates) {
+        let o = match op {
+            Op::Write { off, data } => format!("W@{}+{}", off, data.len()),
+            Op::SetLen(n) => format!("L{n}"),
+            Op::Sync => "S".into(),
+            _ => "?".into(),
+        };
+        let f = match f {
+            Fate::Drop => "drop".to_string(),
+            Fate::Full => "full".to_string(),
+            Fate::Part(r) => format!("part{r:?}"),
+        };
+        write!(s, "{o}:{f} ").unwrap();
+    }
+    s.push(']');
+    s
+}
+
+fn classify(run: &Run, digest: &str, lo: usize, hi: usize) -> Result<usize, String> {
+    // latest matching commit point in [lo, hi]
+    for c in (lo..=hi).rev() {
+        if run.cp_digests[c] == digest {
+            return Ok(c);
+        }
+    }
+    for (c, s) in run.cp_digests.iter().enumerate() {
+        if s == digest {
+            return Err(if c < lo {
+                format!("older-than-acked: shows commit point {c}, allowed {lo}..={hi}")
+            } else {
+                format!("newer-than-requested: shows commit point {c}, allowed {lo}..={hi}")
+            });
+        }
+    }
+    Err(format!("no-commit-point: contents {digest} equal no commit point (allowed {lo}..={hi})"))
+}
+
+struct Ctx<'a> {
+    seed: u64,
+    hist: usize,
+    out: &'a mut Out,
+    thorough: bool,
+    /// digests of commit points that were requested in an earlier epoch and rolled back by a recovery
+    lost: Vec<String>,
+    /// remaining budget of crash images of recovery runs / of continuation runs for this history
+    rec_budget: usize,
+    cont_budget: usize,
+    directed_conts: usize,
+    window_cap: u64,
+    recover_cap: u64,
+}
+
+fn violation(cx: &mut Ctx, key: &str, what: String, replay: String) {
+    cx.out.violations.push(Violation {
+        key: key.to_string(),
+        what,
+        replay: format!("seed={} history={} {}", cx.seed, cx.hist, replay),
+    });
+}
+
+/// record the inputs and the real outcome of one open for the differential test of `recover`
+fn recover_case(out: &mut Out, cfg: &Cfg, image: &[u8], res: &Result<&Opened, String>) {
+    if image.len() < HDR {
+        return;
+    }
+    let hdr = &image[..HDR];
+    let (v0, v1, real) = match res {
+        Ok(o) => {
+            let r0 = slot_roots(hdr, 0);
+            let r1 = slot_roots(hdr, 1);
+            let eq = |a: &Option<[u8; 32]>, b: &Option<[u8; 32]>| match (a, b) {
+                (None, None) => true,
+                (Some(x), Some(y)) => x[..24] == y[..24],
+                _ => false,
+            };
+            let m0 = eq(&o.served.0, &r0.0) && eq(&o.served.1, &r0.1);
+            let m1 = eq(&o.served.0, &r1.0) && eq(&o.served.1, &r1.1);
+            let real = match (m0, m1) {
+                (true, true) => "S*",
+                (true, false) => "S0",
+                (false, true) => "S1",
+                (false, false) => "S?",
+            };
+            (o.ver[0].unwrap_or(false), o.ver[1].unwrap_or(false), real.to_string())
+        }
+        Err(_) => return, // without an open database the walker is not available; S3 reports the failure
+    };
+    writeln!(
+        out.recover_cases,
+        "R {} {} {} {} {} {} {}",
+        cfg.page_size,
+        image.len(),
+        hex(hdr),
+        hex(&slot_cks_real(hdr, 0)),
+        hex(&slot_cks_real(hdr, 1)),
+        v0 as u8,
+        v1 as u8
+    )
+    .unwrap();
+    writeln!(out.recover_impl, "{real}").unwrap();
+    out.stats.recover_cases += 1;
+}
+
+/// crash oracle on one run; `depth` counts how many crashes lie behind `run.start_image`
+fn crash_oracle(cx: &mut Ctx, r: &mut Rng, run: &Run, budget: usize, depth: usize, lineage: &str) {
+    if run.ops.len() <= run.ready_pos {
+        return;
+    }
+    // crash points: after every op inside sampled windows; always the points right before each Sync
+    let sync_positions: Vec<usize> =
+        (run.ready_pos..run.ops.len()).filter(|i| matches!(run.ops[*i], Op::Sync)).collect();
+    let mut points: Vec<usize> = vec![];
+    for &s in &sync_positions {
+        points.push(s); // all ops of the window issued, sync not completed
+    }
+    if *points.last().unwrap_or(&0) != run.ops.len() {
+        points.push(run.ops.len());
+    }
+    // a few mid-window points
+    for _ in 0..(points.len() / 3 + 1) {
+        points.push(r.range(run.ready_pos as u64, run.ops.len() as u64) as usize);
+    }
+    points.sort();
+    points.dedup();
+    let per_point = (budget / points.len().max(1)).max(3);
+    let mut used = 0usize;
+    // visit the points in a deterministic shuffled order so that a small budget still spreads
+    let mut order: Vec<usize> = (0..points.len()).collect();
+    for i in (1..order.len()).rev() {
+        let j = r.below(i as u64 + 1) as usize;
+        order.swap(i, j);
+    }
+    for pi in order {
+        if used >= budget {
+            break;
+        }
+        let k = points[pi];
+        let (durable, s) = durable_at(run, k);
+        let pending: Vec<Op> = run.ops[s..k].iter().filter(|o| !matches!(o, Op::Close)).cloned().collect();
+        let lo = run.marks.lo(k);
+        let hi = run.marks.hi(k).max(lo);
+        let choices = choices_for(r, &durable, &pending, k, per_point, pi * per_point);
+        for c in choices {
+            if used >= budget {
+                break;
+            }
+            used += 1;
+            let image = apply_fates(&durable, &pending, &c.fates);
+            cx.out.stats.images += 1;
+            if depth > 0 {
+                cx.out.stats.continuation_images += 1;
+            }
+            *cx.out.stats.images_by_kind.entry(c.kind.to_string()).or_default() += 1;
+            let desc = format!("{} depth={} cfg=[{}] {}", lineage, depth, run.cfg.describe(), describe_choice(&pending, &c));
+            let want_ver = cx.out.stats.recover_cases < cx.recover_cap && r.chance(1, 2);
+            let res = open_and_dump(&run.cfg, &image, want_ver, false);
+            match res {
+                Err(e) => {
+                    violation(cx, "c01-open-failed", format!("opening the crash image failed: {e}"), desc);
+                }
+                Ok((o, _)) => {
+                    if want_ver {
+                        recover_case(cx.out, &run.cfg, &image, &Ok(&o));
+                    }
+                    match &o.integrity {
+                        Ok(true) => {}
+                        Ok(false) => cx.out.stats.integrity_false += 1,
+                        Err(e) => violation(cx, "c01-integrity-error", format!("check_integrity after recovery failed: {e}"), desc.clone()),
+                    }
+                    match classify(run, &o.digest, lo, hi) {
+                        Ok(cp) => {
+                            if cp == lo && hi > lo {
+                                cx.out.stats.outcome_old += 1;
+                            } else if cp == hi {
+                                cx.out.stats.outcome_new += 1;
+                            } else {
+                                cx.out.stats.outcome_mid += 1;
+                            }
+                            if pending.iter().any(|o| matches!(o, Op::Write { .. } | Op::SetLen(_))) {
+                                cx.out.stats.nontrivial.insert(format!("{}|{}|{}|{}", cx.hist, lineage, k, describe_choice(&pending, &c)));
+                            }
+                            if cx.out.stats.samples.len() < 6 && hi > lo {
+                                cx.out.stats.samples.push(format!("{desc} => commit point {cp} (allowed {lo}..={hi})"));
+                            }
+                            // depth 2: crash the recovery run itself
+                            let max_depth = if cx.thorough { 3 } else { 2 };
+                            let txid_tear = c.kind.starts_with("slot-txid");
+                            if !o.recovery_ops.is_empty() && cx.rec_budget > 0 && (txid_tear || r.chance(1, if cx.thorough { 2 } else { 4 })) {
+                                if cx.out.stats.windows < cx.window_cap {
+                                    let tag = format!("h{}:rec@{}", cx.hist, k);
+                                    if let Err(e) = emit_windows(cx.out, &run.cfg, &tag, &image, &o.recovery_ops, 0) {
+                                        violation(cx, "c01-durable-image-unreadable", format!("a durable image inside a recovery run could not be opened/walked: {e}"), desc.clone());
+                                    }
+                                }
+                                recovery_crash(cx, r, run, &image, &o.recovery_ops, lo, hi, &desc, 1, max_depth);
+                            }
+                            // continuation: drive the recovered database further and crash again.
+                            // Directed: always after "everything but the god byte" (a complete commit that
+                            // recovery may have to roll back), otherwise sampled.
+                            let directed = ((c.kind == "all-but-god-byte" && cp < hi) || txid_tear) && cx.directed_conts > 0;
+                            if depth == 0 && cx.cont_budget > 0 && (directed || r.chance(1, if cx.thorough { 6 } else { 12 })) {
+                                if directed {
+                                    cx.directed_conts -= 1;
+                                }
+                                let mut lost = cx.lost.clone();
+                                for x in (cp + 1)..=hi {
+                                    let d = run.cp_digests[x].clone();
+                                    if d != run.cp_digests[cp] {
+                                        lost.push(d);
+                                    }
+                                }
+                                let saved_lost = std::mem::replace(&mut cx.lost, lost);
+                                let base = run.cps[cp].clone();
+                                let saved = saved_for(run, cp);
+                                let mut r2 = r.fork(k as u64);
+                                let cont = run_history(&mut r2, run.cfg, image.clone(), Some((base, saved)), 3, false);
+                                if let Some(e) = &cont.error {
+                                    violation(cx, "c01-continuation-failed", format!("after recovery the database misbehaved: {e}"), desc.clone());
+                                } else {
+                                    let lin = format!("{lineage}>cont[{}]", describe_choice(&pending, &c));
+                                    let b = cx.cont_budget.min(if cx.thorough { 60 } else { 30 });
+                                    cx.cont_budget -= b;
+                                    crash_oracle(cx, &mut r2, &cont, b, depth + 1, &lin);
+                                    if cx.out.stats.windows < cx.window_cap {
+                                        let tag = format!("h{}:cont@{}", cx.hist, k);
+                                        if let Err(e) = emit_windows(cx.out, &run.cfg, &tag, &cont.start_image, &cont.ops, 0) {
+                                            violation(cx, "c01-durable-image-unreadable", format!("a durable image of a post-recovery run could not be opened/walked: {e}"), desc.clone());
+                                        }
+                                    }
+                                }
+                                cx.lost = saved_lost;
+                            }
+                        }
+                        Err(why) => {
+                            let key = if cx.lost.iter().any(|d| *d == o.digest) {
+                                "c01-resurrected-rolled-back-commit"
+                            } else if why.starts_with("older") {
+                                "c01-older-than-acked"
+                            } else if why.starts_with("newer") {
+                                "c01-newer-than-requested"
+                            } else {
+                                "c01-no-commit-point"
+                            };
+                            let extra = if key == "c01-resurrected-rolled-back-commit" {
+                                " -- the contents are those of a commit that an earlier recovery had rolled back"
+                            } else {
+                                ""
+                            };
+                            violation(cx, key, format!("recovered contents violate the property: {why}{extra}"), desc);
+                        }
+                    }
+                }
+            }
+        }
+    }
+}
+
+/// the contents captured by persistent savepoints, as far as the harness knows them for commit point cp
+fn saved_for(run: &Run, cp: usize) -> BTreeMap<u64, Content> {
+    // savepoint ids are unique within one run, so the captured contents of the ids alive at cp are known
+    run.saved_all.iter().filter(|(id, _)| run.cps[cp].sps.contains(id)).map(|(id, c)| (*id, c.clone())).collect()
+}
+
+/// crash the recovery run that `image` triggered, recursively up to max_depth
+#[allow(clippy::too_many_arguments)]
+fn recovery_crash(
+    cx: &mut Ctx,
+    r: &mut Rng,
+    run: &Run,
+    image: &[u8],
+    rec_ops: &[Op],
+    lo: usize,
+    hi: usize,
+    desc: &str,
+    level: usize,
+    max_depth: usize,
+) {
+    let rrun = Run {
+        cfg: run.cfg,
+        start_image: image.to_vec(),
+        ops: rec_ops.to_vec(),
+        ready_pos: 0,
+        cps: vec![],
+        cp_digests: vec![],
+        saved_all: BTreeMap::new(),
+        marks: Marks::default(),
+        steps: vec![],
+        error: None,
+        markers: BTreeSet::new(),
+    };
+    let n = rrun.ops.len();
+    let mut points: Vec<usize> = (0..n).filter(|i| matches!(rrun.ops[*i], Op::Sync)).collect();
+    points.push(n);
+    points.dedup();
+    for k in points {
+        let (durable, s) = durable_at(&rrun, k);
+        let pending: Vec<Op> = rrun.ops[s..k].to_vec();
+        if pending.is_empty() {
+            continue;
+        }
+        for c in choices_for(r, &durable, &pending, k, if cx.thorough { 8 } else { 4 }, level) {
+            if cx.rec_budget == 0 {
+                return;
+            }
+            cx.rec_budget -= 1;
+            let img2 = apply_fates(&durable, &pending, &c.fates);
+            cx.out.stats.images += 1;
+            cx.out.stats.recovery_images += 1;
+            *cx.out.stats.images_by_kind.entry(format!("recovery:{}", c.kind)).or_default() += 1;
+            let d2 = format!("{desc} >> recovery-crash level={level} {}", describe_choice(&pending, &c));
+            let want_ver = cx.out.stats.recover_cases < cx.recover_cap;
+            match open_and_dump(&run.cfg, &img2, want_ver, false) {
+                Err(e) => violation(cx, "c01-open-failed-after-recovery-crash", format!("opening failed after a crash during recovery: {e}"), d2),
+                Ok((o, _)) => {
+                    if want_ver {
+                        recover_case(cx.out, &run.cfg, &img2, &Ok(&o));
+                    }
+                    if let Err(e) = &o.integrity {
+                        violation(cx, "c01-integrity-error", format!("check_integrity failed: {e}"), d2.clone());
+                    }
+                    match classify(run, &o.digest, lo, hi) {
+                        Ok(_) => {
+                            cx.out.stats.nontrivial.insert(format!("{}|{}", cx.hist, d2));
+                            if level < max_depth - 1 && !o.recovery_ops.is_empty() && r.chance(1, 3) {
+                                recovery_crash(cx, r, run, &img2, &o.recovery_ops, lo, hi, &d2, level + 1, max_depth);
+                            }
+                        }
+                        Err(why) => {
+                            let key = if cx.lost.iter().any(|d| *d == o.digest) {
+                                "c01-resurrected-rolled-back-commit"
+                            } else {
+                                "c01-recovery-crash-wrong-contents"
+                            };
+                            violation(cx, key, format!("after a crash during recovery: {why}"), d2);
+                        }
+                    }
+                }
+            }
+        }
+    }
+}
+
+// ------------------------------------------------------------------------------------------ S2 windows
+
+fn page_ranges(hdr: &[u8], pages: &[(u32, u32, u8)]) -> Vec<(u64, u64)> {
+    let ps = u32::from_le_bytes(hdr[12..16].try_into().unwrap());
+    let rhp = u32::from_le_bytes(hdr[16..20].try_into().unwrap()) as u64;
+    let rmp = u32::from_le_bytes(hdr[20..24].try_into().unwrap()) as u64;
+    let region_size = (rhp + rmp) * ps as u64;
+    let mut v: Vec<(u64, u64)> = pages
+        .iter()
+        .map(|(r, i, o)| {
+            let (a, b) = redb::verif::page_number_address_range(*r, *i, *o, ps as u64, region_size, rhp * ps as u64, ps);
+            (a, b - a)
+        })
+        .collect();
+    v.sort();
+    v.dedup();
+    v
+}
+
+fn fmt_ranges(v: &[(u64, u64)]) -> String {
+    if v.is_empty() {
+        return "-".into();
+    }
+    v.iter().map(|(a, l)| format!("{a}:{l}")).collect::<Vec<_>>().join(",")
+}
+
+/// summary of a durable image for the validator, from the real crate
+fn summarize(cfg: &Cfg, image: &[u8], need_rq: bool) -> Result<String, String> {
+    let hdr = &image[..HDR];
+    let (o, kept) = open_and_dump(cfg, image, false, true)?;
+    let (db, handle) = kept.unwrap();
+    handle.0.lock().unwrap().record = false;
+    let r0 = slot_roots(hdr, 0);
+    let r1 = slot_roots(hdr, 1);
+    let eq = |a: &Option<[u8; 32]>, b: &Option<[u8; 32]>| match (a, b) {
+        (None, None) => true,
+        (Some(x), Some(y)) => x[..24] == y[..24],
+        _ => false,
+    };
+    let m0 = eq(&o.served.0, &r0.0) && eq(&o.served.1, &r0.1);
+    let m1 = eq(&o.served.0, &r1.0) && eq(&o.served.1, &r1.1);
+    let primary = (hdr[GOD] & 1) as usize;
+    let ambiguous = m0 && m1;
+    let p = match (m0, m1) {
+        (true, true) => primary,
+        (true, false) => 0,
+        (false, true) => 1,
+        (false, false) => return Err("served roots equal neither slot".into()),
+    };
+    let rp_roots = if p == 0 { r0 } else { r1 };
+    let (vp, pages) = db.verif_c01_walk(rp_roots.0, rp_roots.1).map_err(|e| format!("{e:?}"))?;
+    if !vp {
+        return Err("served slot does not verify".into());
+    }
+    let rp = page_ranges(hdr, &pages);
+    let q = 1 - p;
+    let vq = slot_valid(hdr, q);
+    let rq = if need_rq && vq {
+        let rq_roots = if q == 0 { r0 } else { r1 };
+        match catch(|| db.verif_c01_walk(rq_roots.0, rq_roots.1)) {
+            Ok(Ok((true, pages))) => Some(page_ranges(hdr, &pages)),
+            _ => None,
+        }
+    } else {
+        None
+    };
+    drop(db);
+    let vpv = slot_valid(hdr, p);
+    // when both slots carry the served roots the real crate cannot tell which one it serves; the
+    // validator driver then resolves p with the model's `recover` (both commits verify)
+    let vq = if ambiguous { slot_valid(hdr, 0) && slot_valid(hdr, 1) } else { vq };
+    let vpv = if ambiguous { slot_valid(hdr, 0) || slot_valid(hdr, 1) } else { vpv };
+    Ok(format!(
+        "D {} {} {} {} {} P{} Q{} {} {}",
+        hex(hdr),
+        image.len(),
+        if ambiguous { "*".to_string() } else { p.to_string() },
+        vq as u8,
+        vpv as u8,
+        fmt_ranges(&rp),
+        match rq {
+            Some(v) => format!("={}", fmt_ranges(&v)),
+            None => "?".into(),
+        },
+        hex(&slot_cks_real(hdr, 0)),
+        hex(&slot_cks_real(hdr, 1)),
+    ))
+}
+
+/// cut ops[from..] into sync windows and write them with the summaries of their durable images
+fn emit_windows(out: &mut Out, cfg: &Cfg, tag: &str, start_image: &[u8], ops: &[Op], from: usize) -> Result<(), String> {
+    let mut img = start_image.to_vec();
+    let mut window: Vec<&Op> = vec![];
+    let mut durable = img.clone();
+    let mut started = false;
+    writeln!(out.windows, "T {tag} {}", cfg.page_size).unwrap();
+    for (i, op) in ops.iter().enumerate() {
+        let in_scope = i >= from;
+        if in_scope && !started {
+            started = true;
+            durable = img.clone();
+            window.clear();
+        }
+        match op {
+            Op::Write { off, data } => {
+                let o = *off as usize;
+                if o + data.len() <= img.len() {
+                    img[o..o + data.len()].copy_from_slice(data);
+                }
+                if in_scope {
+                    window.push(op);
+                }
+            }
+            Op::SetLen(n) => {
+                img.resize(*n as usize, 0);
+                if in_scope {
+                    window.push(op);
+                }
+            }
+            Op::Sync => {
+                if in_scope {
+                    if !window.is_empty() {
+                        emit_one(out, cfg, &durable, &window)?;
+                    }
+                    window.clear();
+                    durable = img.clone();
+                }
+            }
+            _ => {}
+        }
+    }
+    if started && !window.is_empty() {
+        emit_one(out, cfg, &durable, &window)?;
+    }
+    Ok(())
+}
+
+fn emit_one(out: &mut Out, cfg: &Cfg, durable: &[u8], window: &[&Op]) -> Result<(), String> {
+    // W's god byte / slot Q decide whether the validator needs Q's ranges
+    let first_hdr = window.iter().find_map(|o| match o {
+        Op::Write { off: 0, data } if data.len() == HDR => Some(data.clone()),
+        _ => None,
+    });
+    let need_rq = first_hdr.as_ref().is_some_and(|h| h[GOD] & 4 != 0);
+    let d = summarize(cfg, durable, need_rq)?;
+    // vnew: the slot that the header writes put where D's non-served slot is has a valid checksum
+    let fields: Vec<&str> = d.split(' ').collect();
+    // vnew: every slot the header writes carry has a valid checksum or is D's own slot, byte for byte
+    let vnew = first_hdr.as_ref().map_or(true, |h| {
+        (0..2).all(|k| {
+            let b = if k == 0 { SLOT0 } else { SLOT1 };
+            slot_valid(h, k) || h[b..b + SLOT_LEN] == durable[b..b + SLOT_LEN]
+        })
+    });
+    let n = fields.len();
+    writeln!(out.windows, "{} {} {} {}", fields[..n - 2].join(" "), vnew as u8, fields[n - 2], fields[n - 1]).unwrap();
+    for op in window {
+        match op {
+            Op::Write { off: 0, data } if data.len() == HDR => writeln!(out.windows, "O H {}", hex(data)).unwrap(),
+            Op::Write { off, data } => writeln!(out.windows, "O W {} {}", off, data.len()).unwrap(),
+            Op::SetLen(n) => writeln!(out.windows, "O L {n}").unwrap(),
+            _ => {}
+        }
+    }
+    writeln!(out.windows, "E").unwrap();
+    out.stats.windows += 1;
+    Ok(())
+}
+
+// ------------------------------------------------------------------------------------------ reproducer
+
+/// `c01 repro-resurrect`: minimal reproducer of the candidate finding "a commit that a recovery rolled
+/// back is served after a later crash" (default configuration). Exit code 1 when the anomaly shows.
+fn repro_resurrect() -> i32 {
+    const T: TableDefinition<u64, &[u8]> = TableDefinition::new("t");
+    let open = |data: Vec<u8>| -> (Database, RecBackend) {
+        let b = RecBackend::with_data(data);
+        let h = b.handle();
+        (Builder::new().create_with_backend(b).expect("open"), h)
+    };
+    let show = |db: &Database| -> String {
+        let r = db.begin_read().unwrap();
+        match r.open_table(T) {
+            Ok(t) => t.iter().unwrap().map(|e| { let (k, v) = e.unwrap(); format!("{}={}", k.value(), v.value().len()) }).collect::<Vec<_>>().join(" "),
+            Err(e) => format!("<{e:?}>"),
+        }
+    };
+    let put = |db: &Database, k: u64, n: usize| {
+        let w = db.begin_write().unwrap();
+        w.open_table(T).unwrap().insert(k, vec![k as u8; n].as_slice()).unwrap();
+        w.commit().unwrap();
+    };
+    // 1. create, commit n = {1}, clean close (the close commit is a quick-repair commit: god byte P|2PC)
+    let (db, h) = open(vec![]);
+    put(&db, 1, 10);
+    drop(db);
+    // 2. reopen, 1PC commit A = {1,2}; crash: everything of A persisted except the god byte
+    let (db, h) = open(h.snapshot());
+    let before_a = h.snapshot();
+    put(&db, 2, 20);
+    let mut img1 = h.snapshot();
+    h.0.lock().unwrap().record = false;
+    drop(db);
+    img1[GOD] = before_a[GOD];
+    // 3. reopen: the 2PC-flagged primary is trusted, A is rolled back but stays in the secondary slot
+    let (db, h) = open(img1);
+    let after_recovery_1 = show(&db);
+    let before_b = h.snapshot();
+    // 4. 1PC commit B = {1,3}; crash: only the god byte of B's header write persisted
+    put(&db, 3, 30);
+    let after_b = h.snapshot();
+    h.0.lock().unwrap().record = false;
+    drop(db);
+    let mut img2 = before_b.clone();
+    img2[GOD] = after_b[GOD];
+    let (db, h) = open(img2);
+    let after_recovery_2 = show(&db);
+    h.0.lock().unwrap().record = false;
+    drop(db);
+    println!("after recovery 1: [{after_recovery_1}]   (commit A = [1=10 2=20] was rolled back)");
+    println!("after recovery 2: [{after_recovery_2}]   (allowed: [1=10] or [1=10 3=30])");
+    if after_recovery_1 == "1=10" && (after_recovery_2 == "1=10" || after_recovery_2 == "1=10 3=30") {
+        println!("OK: no anomaly");
+        0
+    } else {
+        println!("ANOMALY: the rolled-back commit A is served after the second crash");
+        1
+    }
+}
+
+// ------------------------------------------------------------------------------------------ main
+
+fn json_str(s: &str) -> String {
+    let mut o = String::from("\"");
+    for ch in s.chars() {
+        match ch {
+            '"' => o.push_str("\\\""),
+            '\\' => o.push_str("\\\\"),
+            '\n' => o.push_str("\\n"),
+            c if (c as u32) < 0x20 => write!(o, "\\u{:04x}", c as u32).unwrap(),
+            c => o.push(c),
+        }
+    }
+    o.push('"');
+    o
+}
+
+fn new_out() -> Out {
+    Out {
+        windows: String::new(),
+        recover_cases: String::new(),
+        recover_impl: String::new(),
+        violations: vec![],
+        stats: Stats {
+            histories: 0,
+            images: 0,
+            images_by_kind: BTreeMap::new(),
+            outcome_old: 0,
+            outcome_new: 0,
+            outcome_mid: 0,
+            recovery_images: 0,
+            continuation_images: 0,
+            windows: 0,
+            recover_cases: 0,
+            nontrivial: BTreeSet::new(),
+            markers: BTreeMap::new(),
+            configs: BTreeMap::new(),
+            samples: vec![],
+            integrity_false: 0,
+            run_errors: vec![],
+        },
+    }
+}
+
+/// everything for one history; deterministic in (seed, h, budget, tier)
+fn process_history(seed: u64, h: usize, mut r: Rng, budget: usize, thorough: bool) -> Out {
+    let mut out = new_out();
+    let page_size = *r.pick(&[512usize, 512, 1024, 2048, 4096]);
+    let region_pages = *r.pick(&[16u64, 32, 64]);
+    let cache = match r.below(3) {
+        0 => 0,
+        1 => page_size * r.range(2, 8) as usize,
+        _ => 64 << 20,
+    };
+    let cfg = Cfg { page_size, region_pages, cache };
+    *out.stats
+        .configs
+        .entry(format!(
+            "ps={} rp={} cache={}",
+            page_size,
+            region_pages,
+            if cache == 0 { "0" } else if cache < (1 << 20) { "tiny" } else { "large" }
+        ))
+        .or_default() += 1;
+    let n_steps = r.range(8, 16) as usize;
+    let final_close = r.chance(1, 2);
+    let run = run_history(&mut r, cfg, vec![], None, n_steps, final_close);
+    out.stats.histories += 1;
+    for m in &run.markers {
+        *out.stats.markers.entry(m.to_string()).or_default() += 1;
+    }
+    // growth / shrink markers from the stream
+    let mut last_len = 0u64;
+    for (i, op) in run.ops.iter().enumerate() {
+        if let Op::SetLen(n) = op {
+            if i >= run.ready_pos {
+                let m = if *n > last_len { "file-grow" } else { "file-shrink" };
+                *out.stats.markers.entry(m.to_string()).or_default() += 1;
+            }
+            last_len = *n;
+        }
+    }
+    let mut cx = Ctx {
+        seed,
+        hist: h,
+        out: &mut out,
+        thorough,
+        lost: vec![],
+        rec_budget: budget / 2,
+        cont_budget: budget,
+        directed_conts: 3,
+        window_cap: if thorough { 400 } else { 120 },
+        recover_cap: if thorough { 400 } else { 120 },
+    };
+    if let Some(e) = &run.error {
+        let steps = run.steps.join(" ; ");
+        violation(
+            &mut cx,
+            "c01-history-failed",
+            format!("the real crate failed or disagreed with the specification without any crash: {e}"),
+            format!("cfg=[{}] steps=[{steps}]", cfg.describe()),
+        );
+        cx.out.stats.run_errors.push(e.clone());
+    }
+    crash_oracle(&mut cx, &mut r, &run, budget, 0, "main");
+    // S2 material: the whole stream after creation, cut into windows
+    if let Err(e) = emit_windows(&mut out, &cfg, &format!("h{h}"), &run.start_image, &run.ops, run.ready_pos) {
+        out.stats.run_errors.push(format!("history {h}: summarising a durable image failed: {e}"));
+        out.violations.push(Violation {
+            key: "c01-durable-image-unreadable".into(),
+            what: format!("a durable image of the recorded stream could not be opened/walked by the real crate: {e}"),
+            replay: format!("seed={seed} history={h} cfg=[{}]", cfg.describe()),
+        });
+    }
+    out
+}
+
+fn merge(a: &mut Out, b: Out) {
+    a.windows.push_str(&b.windows);
+    a.recover_cases.push_str(&b.recover_cases);
+    a.recover_impl.push_str(&b.recover_impl);
+    a.violations.extend(b.violations);
+    let (s, t) = (&mut a.stats, b.stats);
+    s.histories += t.histories;
+    s.images += t.images;
+    s.outcome_old += t.outcome_old;
+    s.outcome_new += t.outcome_new;
+    s.outcome_mid += t.outcome_mid;
+    s.recovery_images += t.recovery_images;
+    s.continuation_images += t.continuation_images;
+    s.windows += t.windows;
+    s.recover_cases += t.recover_cases;
+    s.integrity_false += t.integrity_false;
+    s.nontrivial.extend(t.nontrivial);
+    for (k, v) in t.images_by_kind {
+        *s.images_by_kind.entry(k).or_default() += v;
+    }
+    for (k, v) in t.markers {
+        *s.markers.entry(k).or_default() += v;
+    }
+    for (k, v) in t.configs {
+        *s.configs.entry(k).or_default() += v;
+    }
+    for x in t.samples {
+        if s.samples.len() < 8 {
+            s.samples.push(x);
+        }
+    }
+    s.run_errors.extend(t.run_errors);
 }
 
 fn main() {
-    silence_panics();
-    // 1. create, commit n, clean close
-    let (db, h) = open(vec![]);
-    let db = db.unwrap();
-    {
-        let mut w = db.begin_write().unwrap();
-        w.set_durability(Durability::Immediate).unwrap();
-        {
-            let mut t = w.open_table(T).unwrap();
-            t.insert(1, &[1u8; 10][..]).unwrap();
+    if std::env::var("C01_TRACE").is_err() {
+        silence_panics();
+    }
+    let args: Vec<String> = std::env::args().collect();
+    if args.get(1).map(String::as_str) == Some("repro-resurrect") {
+        std::process::exit(repro_resurrect());
+    }
+    let n_hist: usize = args.get(1).map(|s| s.parse().unwrap()).unwrap_or(10);
+    let budget: usize = args.get(2).map(|s| s.parse().unwrap()).unwrap_or(60);
+    let only: Option<usize> = args.iter().find_map(|a| a.strip_prefix("only=").map(|x| x.parse().unwrap()));
+    let threads: usize = args
+        .iter()
+        .find_map(|a| a.strip_prefix("threads=").map(|x| x.parse().unwrap()))
+        .unwrap_or_else(|| std::thread::available_parallelism().map(|n| n.get()).unwrap_or(4).min(12));
+    let seed = seed_from_env();
+    let thorough = tier_is_thorough();
+    let mut master = Rng::new(seed);
+    let jobs: Vec<(usize, Rng)> = (0..n_hist).map(|h| (h, master.fork(h as u64))).filter(|(h, _)| only.is_none_or(|o| o == *h)).collect();
+    // histories are independent: run them on a pool, merge in history order (deterministic output)
+    let next = std::sync::atomic::AtomicUsize::new(0);
+    let results: std::sync::Mutex<Vec<Option<Out>>> = std::sync::Mutex::new((0..jobs.len()).map(|_| None).collect());
+    std::thread::scope(|sc| {
+        for _ in 0..threads.min(jobs.len()).max(1) {
+            sc.spawn(|| {
+                loop {
+                    let i = next.fetch_add(1, std::sync::atomic::Ordering::SeqCst);
+                    if i >= jobs.len() {
+                        break;
+                    }
+                    let (h, r) = jobs[i].clone();
+                    let o = match catch(|| process_history(seed, h, r, budget, thorough)) {
+                        Ok(o) => o,
+                        Err(p) => {
+                            let mut o = new_out();
+                            o.violations.push(Violation {
+                                key: "c01-harness-panic".into(),
+                                what: format!("the harness (or the real crate outside a guarded call) panicked: {p}"),
+                                replay: format!("seed={seed} history={h}"),
+                            });
+                            o
+                        }
+                    };
+                    results.lock().unwrap()[i] = Some(o);
+                }
+            });
         }
-        w.commit().unwrap();
+    });
+    let mut out = new_out();
+    for o in results.into_inner().unwrap().into_iter().flatten() {
+        merge(&mut out, o);
     }
-    drop(db);
-    println!("create+commit+close:");
-    show(&h.take_ops());
-    let img0 = h.snapshot();
-    // 2. reopen, commit A 1PC
-    let (db, h) = open(img0.clone());
-    let db = db.unwrap();
-    println!("reopen:");
-    show(&h.take_ops());
-    let before_a = h.snapshot();
-    {
-        let w = db.begin_write().unwrap();
-        {
-            let mut t = w.open_table(T).unwrap();
-            t.insert(2, &[2u8; 20][..]).unwrap();
-        }
-        w.commit().unwrap();
+    std::fs::write("windows.txt", &out.windows).unwrap();
+    std::fs::write("recover_cases.txt", &out.recover_cases).unwrap();
+    std::fs::write("recover_impl.txt", &out.recover_impl).unwrap();
+    let mut v = String::from("[\n");
+    for (i, x) in out.violations.iter().enumerate() {
+        write!(v, "{}{{\"key\":{},\"what\":{},\"replay\":{}}}", if i > 0 { ",\n" } else { "" }, json_str(&x.key), json_str(&x.what), json_str(&x.replay)).unwrap();
     }
-    println!("commit A:");
-    let ops_a = h.take_ops();
-    show(&ops_a);
-    let after_a = h.snapshot();
-    std::mem::forget(db);
-    // crash image 1: everything of A except the god byte
-    let mut img1 = after_a.clone();
-    img1[9] = before_a[9];
-    println!("god before A {:#x} after A {:#x}", before_a[9], after_a[9]);
-    let (db, h) = open(img1);
-    let db = db.unwrap();
-    println!("recovery 1 shows: {}", dump(&db));
-    println!("recovery ops:");
-    show(&h.take_ops());
-    let before_b = h.snapshot();
-    {
-        let w = db.begin_write().unwrap();
-        {
-            let mut t = w.open_table(T).unwrap();
-            t.insert(3, &[3u8; 30][..]).unwrap();
-        }
-        w.commit().unwrap();
-    }
-    println!("commit B:");
-    show(&h.take_ops());
-    let after_b = h.snapshot();
-    println!("after B shows: {}", dump(&db));
-    std::mem::forget(db);
-    // crash image 2: only the god byte of B's window persisted
-    let mut img2 = before_b.clone();
-    img2[9] = after_b[9];
-    println!("god before B {:#x} after B {:#x}", before_b[9], after_b[9]);
-    let (db, _h) = open(img2);
-    match db {
-        Ok(db) => println!("recovery 2 shows: {}   (allowed: '1=10 ' or '1=10 3=30 ')", dump(&db)),
-        Err(e) => println!("recovery 2 failed: {e}"),
-    }
+    v.push_str("\n]\n");
+    std::fs::write("violations.json", v).unwrap();
+    let s = &out.stats;
+    let mut j = String::from("{");
+    write!(j, "\"histories\":{},\"images\":{},\"recovery_images\":{},\"continuation_images\":{},\"windows\":{},\"recover_cases\":{},", s.histories, s.images, s.recovery_images, s.continuation_images, s.windows, s.recover_cases).unwrap();
+    write!(j, "\"outcome_old\":{},\"outcome_new\":{},\"outcome_mid\":{},\"integrity_false\":{},\"distinct_nontrivial\":{},", s.outcome_old, s.outcome_new, s.outcome_mid, s.integrity_false, s.nontrivial.len()).unwrap();
+    let map = |m: &BTreeMap<String, u64>| format!("{{{}}}", m.iter().map(|(k, v)| format!("{}:{}", json_str(k), v)).collect::<Vec<_>>().join(","));
+    write!(j, "\"images_by_kind\":{},\"markers\":{},\"configs\":{},", map(&s.images_by_kind), map(&s.markers), map(&s.configs)).unwrap();
+    write!(j, "\"samples\":[{}],", s.samples.iter().map(|x| json_str(x)).collect::<Vec<_>>().join(",")).unwrap();
+    write!(j, "\"run_errors\":[{}]", s.run_errors.iter().map(|x| json_str(x)).collect::<Vec<_>>().join(",")).unwrap();
+    j.push('}');
+    std::fs::write("stats.json", j).unwrap();
+    println!(
+        "histories={} images={} windows={} recover_cases={} violations={} distinct_nontrivial={}",
+        s.histories,
+        s.images,
+        s.windows,
+        s.recover_cases,
+        out.violations.len(),
+        s.nontrivial.len()
+    );
 }
